@@ -75,7 +75,7 @@ func genC18(r *gen.Rand) *C18Case {
 	input := "in.yaml"
 	vectors := []string{"parent-dotdot", "parent-absolute", "parent-wildcard", "parent-list", "symlink-relative", "symlink-absolute",
 		"symlink-chain", "dir-symlink", "symlink-name-parent", "input-dotdot", "virtual-ext", "parent-dotdot-sub",
-		"symlink-hops", "symlink-hops", "symlink-via-dirlink", "setroot-sibling-prefix", "setroot-through-dirlink", "parent-wildcard-dir", "preread-then-narrow", "parent-wildcard-mixed"}
+		"symlink-hops", "symlink-hops", "symlink-via-dirlink", "setroot-sibling-prefix", "setroot-through-dirlink", "parent-wildcard-dir", "preread-then-narrow", "parent-wildcard-mixed", "parent-stdin-name"}
 	c.Vector = gen.PickAny(r, vectors)
 	target := func(outside, inside string) string {
 		if c.Benign {
@@ -205,6 +205,12 @@ func genC18(r *gen.Rand) *C18Case {
 		if c.Benign {
 			put(c18Root+"/sub2/s.yaml", map[string]any{"s2": 1})
 		}
+	case "parent-stdin-name":
+		// a $parent naming a layer called "-" (the spelling of standard
+		// input) next to the decoys; nothing is on stdin
+		put(c18Outside+"/-.yaml", secret(9))
+		put(c18Root+"/sub/-.yaml", map[string]any{"dash": 1})
+		in["$parent"] = target("../outside/-", "sub/-")
 	case "parent-wildcard-mixed":
 		// one $parent value expanding to several files: a regular layer
 		// inside the root and a link that leaves it (or, benign, stays inside)
@@ -636,7 +642,16 @@ func c18Candidates(c *C18Case) []*C18Case {
 
 // c18Known names the known-finding predicate a case satisfies.
 func c18Known(c *C18Case, o *c18Obs) string {
-	if o == nil || o.Clause != "result-depends-on-outside-state" || c.Vector != "parent-wildcard-dir" || c.Benign {
+	if o == nil || o.Clause != "result-depends-on-outside-state" || c.Benign {
+		return ""
+	}
+	if c.Vector == "parent-stdin-name" && o.State == "delete" {
+		// $parent values are expanded by filepath.Glob outside the root
+		// handle; a match named "-" is then read from standard input
+		// instead of being opened through the root
+		return "c18-parent-stdin-name-outside-root"
+	}
+	if c.Vector != "parent-wildcard-dir" {
 		return ""
 	}
 	switch o.State {
@@ -656,6 +671,17 @@ func c18Sentinel() *C18Case {
 		{Path: c18Root + "/in.yaml", Docs: treeDocs(map[string]any{"$parent": "../*/base", "z": 1})},
 		{Path: c18Root + "/base.yaml", Docs: treeDocs(map[string]any{"inner": true})},
 		{Path: c18Outside + "/base.yaml", Docs: treeDocs(map[string]any{"secret": "S8"})},
+	}
+	c.Args = []string{"-r", "root", "root/in.yaml"}
+	return c
+}
+
+func c18SentinelStdin() *C18Case {
+	c := &C18Case{Cwd: "W", Vector: "parent-stdin-name", States: []string{"baseline", "delete"}}
+	c.World.Dirs = []string{c18Root, c18Outside}
+	c.World.Files = []procsim.File{
+		{Path: c18Root + "/in.yaml", Docs: treeDocs(map[string]any{"$parent": "../outside/-", "z": 1})},
+		{Path: c18Outside + "/-.yaml", Docs: treeDocs(map[string]any{"secret": "S9"})},
 	}
 	c.Args = []string{"-r", "root", "root/in.yaml"}
 	return c
@@ -737,15 +763,14 @@ func RunC18(e *Env) (int, error) {
 		return v, ""
 	}
 	t0 := time.Now()
-	{
-		c := c18Sentinel()
-		o, err := judgeC18(e, c, "sentinel", 0)
+	for k, c := range []*C18Case{c18Sentinel(), c18SentinelStdin()} {
+		o, err := judgeC18(e, c, "sentinel", int64(k))
 		if err != nil {
 			return 0, err
 		}
 		ev.Eval("")
 		if o.Clause != "" {
-			v := &harness.Violation{Property: "C18", Check: "noninterference", Clause: o.Clause, Seed: e.Seed, Run: -1, Case: c, Observed: o}
+			v := &harness.Violation{Property: "C18", Check: "noninterference", Clause: o.Clause, Seed: e.Seed, Run: int64(-1 - k), Case: c, Observed: o}
 			if e.Report(v, c18Known(c, o)) {
 				return 1, nil
 			}
